@@ -148,8 +148,11 @@ func (d *FormatDecoder) Next() (interface{}, error) {
 	// If we previously returned a reader, make sure we advance all the way in
 	// case the caller didn't read it all.
 	if d.advance != nil {
-		io.Copy(ioutil.Discard, d.advance)
+		_, err := io.Copy(ioutil.Discard, d.advance)
 		d.advance = nil
+		if err != nil {
+			return nil, err
+		}
 	}
 	hdr, err := d.r.ReadHeader()
 	if err != nil {
@@ -286,7 +289,7 @@ func (d *FormatDecoder) Next() (interface{}, error) {
 			return nil, InvalidFormat{"invalid payload size"}
 		}
 		size := hdr.Size - 16
-		r := io.LimitReader(d.r, int64(size))
+		r := &payloadReader{r: d.r, n: size}
 		// Record the reader to be read fully on the next iteration if the caller
 		// didn't do it
 		d.advance = r
@@ -474,6 +477,28 @@ func (d *FormatDecoder) Next() (interface{}, error) {
 	default:
 		return nil, fmt.Errorf("unsupported header type %x", hdr.Type)
 	}
+}
+
+// payloadReader reads the n bytes of a payload from the underlying stream. Unlike
+// io.LimitReader it reports io.ErrUnexpectedEOF if the stream ends before that.
+type payloadReader struct {
+	r io.Reader
+	n uint64
+}
+
+func (p *payloadReader) Read(b []byte) (int, error) {
+	if p.n == 0 {
+		return 0, io.EOF
+	}
+	if uint64(len(b)) > p.n {
+		b = b[:p.n]
+	}
+	n, err := p.r.Read(b)
+	p.n -= uint64(n)
+	if err == io.EOF && p.n > 0 {
+		err = io.ErrUnexpectedEOF
+	}
+	return n, err
 }
 
 // FormatEncoder takes casync format elements and encodes them into a stream.
